@@ -60,7 +60,7 @@ impl<R: Round> Context<R> {
         let root = Sign::Positive * root;
         let exp = (x.exponent - shift) / 2;
 
-        let res = if rem.is_zero() {
+        let res = if rem.is_zero() && low.is_zero() {
             Approximation::Exact(root)
         } else {
             let adjust = R::round_low_part(&root, Sign::Positive, || {
